@@ -351,6 +351,7 @@ def _fresh(ps, schema, old=None):
     return None
 
 
+# to_array / to_empty_array: a key whose schema admits a single value OR an array of them (`params: Type | Type[]`)
 LIST_OPS = ("append", "prepend", "drop_last", "drop_first", "swap_ends", "clear", "dup_last", "change_last")
 
 
@@ -389,6 +390,10 @@ def grammar_edits(schema, doc, defname, key, op, cap=4):
             if x is None or key == "kind":
                 continue
             n2[key] = x
+        elif op in ("to_array", "to_empty_array"):
+            if isinstance(v, list) or not any(isinstance(alt, dict) and alt.get("type") == "array" for alt in ps.get("anyOf", [])):
+                continue
+            n2[key] = [v] if op == "to_array" else []
         elif op == "rekind":
             if key != "kind" or v not in ("and", "or", "tuple"):
                 continue
